@@ -1,6 +1,6 @@
 (* Property C19 — routes installed by the routing daemon mirror its tables; prefix logs replicate.
    Only theorem statements closed by `exact`, each followed by Print Assumptions. *)
-From DvFib Require Import U64 GenConsts PfxLog PfxLogProofs.
+From DvFib Require Import U64 GenConsts PfxLog PfxLogProofs DvFib DvFibProofs.
 Open Scope N_scope.
 
 (* log_replication. For every initial sequence number s0, every history of publisher operations (announce, withdraw;
@@ -30,6 +30,47 @@ Theorem peer_ok_is_spec : forall pub_set pub_seq known peer_set,
   peer_ok pub_set pub_seq known peer_set = true <-> (known = pub_seq -> set_eq peer_set pub_set).
 Proof. exact peer_ok_spec. Qed.
 Print Assumptions peer_ok_is_spec.
+
+(* installed_mirrors_tables. `frun me evs` runs a history of events from the empty installer: SetTables replaces the
+   RIB view (per destination router: best / second-best next hop and costs), the neighbour-face table and the prefix
+   table by ARBITRARY new values (so it covers every possible table change: cost changes, destinations becoming
+   unreachable, next hops swapping, neighbours changing face or disappearing, announcements, withdrawals, multi-homed
+   prefixes, duplicates, permutations of Go map order); FibUpdate runs the installer (fibUpdate: build the fibEntries
+   map, UpdateH with prevCost diffing per prefix, mark, RemoveUnmarked).  s_rt is the reference route table: the fold
+   of EVERY register/unregister command emitted since the start.  After any history that ends with a FibUpdate it
+   equals `desired`: for each prefix p and face f the lowest cost among the best and finite second-best next hops
+   (mapped to faces) of the reachable remote routers that announce p or own it as routing prefix; nothing else. *)
+Theorem installed_mirrors_tables : forall me evs p f,
+  let s := frun me (evs ++ [FibUpdate]) in
+  rt_lookup (s_rt s) (p, f) = desired (s_tab s) p f.
+Proof. exact installed_mirrors_tables_l. Qed.
+Print Assumptions installed_mirrors_tables.
+
+(* invariant of the statement: at every moment installed = fold of emitted commands = the installer's prefixes map *)
+Theorem installed_is_prefixes_map : forall me evs p f,
+  let s := frun me evs in rt_lookup (s_rt s) (p, f) = fib_lookup (s_fib s) p f.
+Proof. exact installed_is_prefixes_map_l. Qed.
+Print Assumptions installed_is_prefixes_map.
+
+(* the decidable predicate the runner evaluates on the implementation's command stream and table dumps *)
+Theorem mirrorsb_is_spec : forall t rt, mirrorsb t rt = true <-> forall p f, rt_lookup rt (p, f) = desired t p f.
+Proof. exact mirrorsb_spec. Qed.
+Print Assumptions mirrorsb_is_spec.
+
+(* non-vacuity: router 9; destinations 1 (via neighbour 5 cost 1, second 6 cost 3) and 2 (via 6 cost 2); both announce
+   prefix 70 (multi-homed); neighbours 5,6 on faces 50,60. Then neighbour 6 moves to face 61, router 2 becomes
+   unreachable and router 1 withdraws 70: the stream unregisters/re-registers accordingly. *)
+Example c19_fib_example :
+  let r1 := {| re_name := 1; re_pfx := 101; re_nh1 := 5; re_l1 := 1; re_nh2 := 6; re_l2 := 3 |} in
+  let r2 := {| re_name := 2; re_pfx := 102; re_nh1 := 6; re_l1 := 2; re_nh2 := 0; re_l2 := 16 |} in
+  let r2' := {| re_name := 2; re_pfx := 102; re_nh1 := 0; re_l1 := 16; re_nh2 := 0; re_l2 := 16 |} in
+  let s1 := frun 9 [SetTables [r1; r2] [(5, 50); (6, 60)] [(1, [70]); (2, [70])]; FibUpdate] in
+  let s2 := frun 9 [SetTables [r1; r2] [(5, 50); (6, 60)] [(1, [70]); (2, [70])]; FibUpdate;
+                    SetTables [r1; r2'] [(5, 50); (6, 61)] [(1, []); (2, [70])]; FibUpdate] in
+  rt_lookup (s_rt s1) (70, 60) = Some 2 /\ rt_lookup (s_rt s1) (70, 50) = Some 1 /\ rt_lookup (s_rt s1) (102, 60) = Some 2 /\
+  rt_lookup (s_rt s2) (70, 60) = None /\ rt_lookup (s_rt s2) (70, 50) = None /\ rt_lookup (s_rt s2) (102, 60) = None /\
+  rt_lookup (s_rt s2) (101, 61) = Some 3 /\ rt_lookup (s_rt s2) (101, 60) = None /\ mirrorsb (s_tab s2) (s_rt s2) = true.
+Proof. vm_compute. repeat split. Qed.
 
 (* non-vacuity: a late joiner that starts 3 publications in, gets one op, then a snapshot from a cache, then ops *)
 Example c19_pfx_example :
